@@ -1,13 +1,49 @@
-"""C04 — the validity verdict is False exactly when the csvpath failed the file (standalone part)."""
-from checks import runfam
+"""C04 — the validity verdict is False exactly when the csvpath failed the file.
+
+(1) Standalone: generated csvpaths with conditional fail()/fail_and_stop()/failed()/valid() (also right of '->' with false lefts,
+after skip()/stop(), under onmatch): the is_valid bit logged after every line must equal the run machine's (RunTrace), and
+ValidityMonotone is checked by TLC as an action property on every validated trace.  Error-policy 'fail' is C05's.
+(2) Aggregation: named-paths groups with failing members, all six run methods: ArchiveTrace requires the member manifests'
+valid, the run manifest's all_valid and ResultsManager.is_valid(name) to be the conjunction of the members' verdicts."""
+import json
+
+from checks import c09, runfam
+from lib import common, scratch
+from lib.tlc import MachineryError
 
 PID = "C04"
 JUDGED = {"valid", "final_valid"}
+AGG = {"manifest_valid", "run_manifest_all_valid", "results_manager_is_valid"}
+
+
+def aggregation(rep, tier):
+    n = 25 if tier == "quick" else 600
+    outs = common.pmap(c09._work, [(common.seed() + 404, i, tier == "quick") for i in range(n)], initializer=scratch.enter_scratch, chunksize=2)
+    recs = []
+    for o in outs:
+        if "recs" in o:
+            recs += o["recs"]
+        elif "harness" in o:
+            raise MachineryError(json.dumps(o)[:1200])
+    v = c09.validate(recs, rep, "ArchiveTrace (aggregation of validity)")
+    mixed = 0
+    for r in recs:
+        vals = [m["mem"]["valid"] for m in r["members"]]
+        if len(set(vals)) > 1:
+            mixed += 1
+        d = v.get(r["tid"])
+        if d and d["verdict"] in AGG:
+            rep.violation({"kind": "validity-aggregation", "verdict": d["verdict"], "run_manifest": r["run"], "is_valid_api": r["is_valid_api"],
+                           "member_verdicts": vals, **r["_info"]})
+    rep.extra["aggregation_runs"] = len(recs)
+    rep.extra["aggregation_runs_with_mixed_member_verdicts"] = mixed
+    rep.evaluations += len(recs)
 
 
 def main(tier):
     n = 700 if tier == "quick" else 12000
-    return runfam.run(PID, tier, groups=("core", "control", "validity"), judged=JUDGED, ncases=n, seed_salt=400)
+    return runfam.run(PID, tier, groups=("core", "control", "validity"), judged=JUDGED, ncases=n, seed_salt=400,
+                      pre=lambda rep: aggregation(rep, tier))
 
 
 def replay(path):
